@@ -187,7 +187,7 @@ class Device(object):
             self.enqueue(s.q, Packet(b'CLSE', 0, s.local))
             s.dev_closed = True
             return
-        self.enqueue(s.q, Packet(b'OKAY', remote, s.local))
+        self.enqueue(s.q, Packet(b'OKAY', remote, s.local), (self.cfg.get('open_delay') or {}).get(dest, 0.0))
         clse = self.cfg.get('clse', 'after-ack')
         if clse == 'choice':
             s.eager = bool(self.env.ch.choose('clse-timing', 2, (0, 0)))
